@@ -73,6 +73,11 @@ func c13EncBytes(ctx string, prot, unprot rc.Val) ([]byte, error) {
 		return (&cose.Countersignature{Headers: h, Signature: sig}).MarshalCBOR()
 	case "sign-body":
 		return (&cose.SignMessage{Headers: h, Payload: []byte("p"), Signatures: []*cose.Signature{{Headers: cose.Headers{Protected: cose.ProtectedHeader{}}, Signature: sig}}}).MarshalCBOR()
+	case "sign-second-signer":
+		// the layer is the second signer of a COSE_Sign whose first signer has the very same protected bucket (and
+		// an empty unprotected one)
+		first := &cose.Signature{Headers: cose.Headers{Protected: bridge.ToProtected(prot), Unprotected: cose.UnprotectedHeader{}}, Signature: sig}
+		return (&cose.SignMessage{Headers: cose.Headers{Protected: cose.ProtectedHeader{}, Unprotected: cose.UnprotectedHeader{}}, Payload: []byte("p"), Signatures: []*cose.Signature{first, {Headers: h, Signature: sig}}}).MarshalCBOR()
 	}
 	panic("c13Enc: ctx " + ctx)
 }
@@ -104,6 +109,13 @@ func c13Wire(ctx string, prot, unprot rc.Val) (refcose.Kind, []byte) {
 			return refcose.KSignature, w
 		}
 		return refcose.KCountersignature, w
+	}
+	if ctx == "sign-second-signer" {
+		w := []byte{0xd8, 0x62, 0x84, 0x40, 0xa0, 0x41, 'p', 0x82, 0x83}
+		w = append(append(append(w, pb...), 0xa0), tail...)
+		w = append(w, 0x83)
+		w = append(append(append(w, pb...), ub...), tail...)
+		return refcose.KSign, w
 	}
 	w := []byte{0xd8, 0x62, 0x84}
 	w = append(append(w, pb...), ub...)
@@ -268,7 +280,7 @@ func c13EdgeLabel(l rc.Val) bool {
 	return l.K == rc.KInt && ok && (i >= 23 && i != 32 && i != 33 && i != 34 && i != 35 && i != 99 && i != 258 && i != 259 && i != 260 || i <= -24 && i != -99)
 }
 
-var c13Ctxs = []string{"protected", "unprotected", "sign1", "untagged", "signature", "countersignature", "sign-body"}
+var c13Ctxs = []string{"protected", "unprotected", "sign1", "untagged", "signature", "countersignature", "sign-body", "sign-second-signer"}
 
 // forEachSingleParamCell enumerates the single-parameter header cells: label x
 // value kind x bucket x context (x every fitting Go spelling of the label when
